@@ -2109,6 +2109,9 @@ IDXFA_OPS = {
 }
 IDXFA_ITER_FIELDS = [("reader.reader", "Rd"), ("record", "IndexRecord"), ("bases_left", "u64"), ("line_offset", "u64"),
                      ("buf", "Vec<u8>"), ("buf_idx", "usize")]
+IDXFA_FETCH_FIELDS = [("index.inner", "Vec<IndexRecord>"), ("fetched_idx", "Option<IndexRecord>"), ("start", "Option<u64>"),
+                      ("stop", "Option<u64>")]
+IDXFA_FETCH_OUTS = ["self.fetched_idx", "self.start", "self.stop"]
 IDXFA_ITER_OUTS = ["self.reader.reader", "self.bases_left", "self.line_offset", "self.buf", "self.buf_idx"]
 
 unit(name="SrcIdxFa", props="property C12", file="src/io/fasta.rs", dialect="cf", lean_imports=["RbV.Basic.RsSemIo"],
@@ -2138,6 +2141,28 @@ unit(name="SrcIdxFa", props="property C12", file="src/io/fasta.rs", dialect="cf"
                      ret="io::Result<()>", outs=["self.reader", "seq"], ops=["fillBuf", "consume", "seekStart"],
                      ghosts=[("fuel", "Nat")], fuel=["fuel"], siblings=["seek_to", "read_line"],
                      theorem="RbV.Thm.GenSrcIdxFa.readIntoBuffer_eq_model"),
+                dict(name="IndexedReader::idx_by_rid", lean="idxByRid", io=True,
+                     header="fn idx_by_rid(&self, rid: usize) -> io::Result<IndexRecord>",
+                     self_fields=[("index.inner", "Vec<IndexRecord>")], params=[("rid", "usize")],
+                     ret="io::Result<IndexRecord>", outs=[], ops=[],
+                     theorem="RbV.Thm.GenSrcIdxFa.idxByRid_eq_model"),
+                dict(name="IndexedReader::fetch_by_rid", lean="fetchByRid", io=True,
+                     header="pub fn fetch_by_rid(&mut self, rid: usize, start: u64, stop: u64) -> io::Result<()>",
+                     self_fields=IDXFA_FETCH_FIELDS, params=[("rid", "usize"), ("start", "u64"), ("stop", "u64")],
+                     ret="io::Result<()>", outs=IDXFA_FETCH_OUTS, ops=[], siblings=["idx_by_rid"],
+                     theorem="RbV.Thm.GenSrcIdxFa.fetchByRid_eq_model"),
+                dict(name="IndexedReader::fetch_all_by_rid", lean="fetchAllByRid", io=True,
+                     header="pub fn fetch_all_by_rid(&mut self, rid: usize) -> io::Result<()>",
+                     self_fields=IDXFA_FETCH_FIELDS, params=[("rid", "usize")],
+                     ret="io::Result<()>", outs=IDXFA_FETCH_OUTS, ops=[], siblings=["idx_by_rid"],
+                     theorem="RbV.Thm.GenSrcIdxFa.fetchAllByRid_eq_model"),
+                dict(name="IndexedReader::read", lean="read", io=True,
+                     header="pub fn read(&mut self, seq: &mut Text) -> io::Result<()>",
+                     self_fields=[("reader", "Rd"), ("fetched_idx", "Option<IndexRecord>"), ("start", "Option<u64>"),
+                                  ("stop", "Option<u64>")],
+                     params=[("seq", "&mut Text")], ret="io::Result<()>", outs=["self.reader", "seq"],
+                     ops=["fillBuf", "consume", "seekStart"], ghosts=[("fuel", "Nat")], siblings=["read_into_buffer"],
+                     theorem="RbV.Thm.GenSrcIdxFa.read_eq"),
                 dict(name="IndexedReaderIterator::fill_buffer", lean="fillBuffer", io=True,
                      header="fn fill_buffer(&mut self) -> io::Result<()>",
                      self_fields=IDXFA_ITER_FIELDS, params=[], ret="io::Result<()>", outs=IDXFA_ITER_OUTS,
